@@ -1,4 +1,11 @@
-(* IterProofs.v — proofs about the iteration model (C11). *)
+(* IterProofs.v — proofs about the iteration model (C11): IterModel.v with the rules [repaired].
+
+   Central notion: [wb f u cvs] — the iterable [u] is WELL-BEHAVED with cursor chain [cvs]
+   (a list of (cursor, item) pairs): iter_init hands out the first cursor, iter_last the last,
+   iter_next / iter_prev move along the chain and hand out Terminal exactly past its ends, and the
+   item under each cursor is the recorded one.  Every walk theorem follows from [wb] alone
+   ([walk_fwd], [walk_bwd]); every container and every view is shown to be [wb] (views: given that
+   their underlying iterables are), so the results compose to any nesting depth. *)
 From Coq Require Import List ZArith Bool Arith Lia.
 From CelloV Require Import Generated IterModel IterSource.
 Import ListNotations.
@@ -10,3 +17,227 @@ Proof. reflexivity. Qed.
 
 Lemma source_shapes : source_shapes_ok = true.
 Proof. reflexivity. Qed.
+
+Notation R := repaired.
+
+(* ------------------------------------------------------------------ chains *)
+Definition cur_at (cvs : list (cur * val)) (i : nat) : option cur := option_map fst (nth_error cvs i).
+Definition cur_before (cvs : list (cur * val)) (i : nat) : option cur :=
+  match i with O => None | S j => cur_at cvs j end.
+
+Record wb (f : nat) (u : iterable) (cvs : list (cur * val)) : Prop := mkWb {
+  wb_init : it_start R f Fwd u = OVal (cur_at cvs 0);
+  wb_last : it_start R f Bwd u = OVal (cur_before cvs (length cvs));
+  wb_val  : forall i c v, nth_error cvs i = Some (c, v) -> cur_val u c = OVal v;
+  wb_next : forall i c v, nth_error cvs i = Some (c, v) -> it_step R f Fwd u c = OVal (cur_at cvs (S i));
+  wb_prev : forall i c v, nth_error cvs i = Some (c, v) -> it_step R f Bwd u c = OVal (cur_before cvs i)
+}.
+
+Lemma cur_at_some cvs i c : cur_at cvs i = Some c -> exists v, nth_error cvs i = Some (c, v).
+Proof.
+  unfold cur_at. destruct (nth_error cvs i) as [[c' v]|] eqn:E; simpl; intros H; inversion H; subst; eauto.
+Qed.
+
+Lemma cur_at_none cvs i : cur_at cvs i = None <-> (length cvs <= i)%nat.
+Proof.
+  unfold cur_at. split.
+  - destruct (nth_error cvs i) eqn:E; simpl; [discriminate|]. intros _. now apply nth_error_None.
+  - intros H. apply nth_error_None in H. now rewrite H.
+Qed.
+
+(* ------------------------------------------------------------------ foreach over a well-behaved iterable *)
+Lemma walk_loop_fwd f u cvs (H : wb f u cvs) :
+  forall k i acc cut, (i + k = length cvs)%nat -> (k < cut)%nat ->
+    walk_loop R f Fwd u cut (cur_at cvs i) acc = (rev acc ++ map snd (skipn i cvs), WDone).
+Proof.
+  induction k; intros i acc cut Hi Hc.
+  - assert (cur_at cvs i = None) as -> by (apply cur_at_none; lia).
+    rewrite skipn_all2 by lia. simpl. destruct cut; now rewrite app_nil_r.
+  - destruct (nth_error cvs i) as [[c v]|] eqn:E.
+    2:{ apply nth_error_None in E. lia. }
+    unfold cur_at at 1. rewrite E. destruct cut as [|cut]; [lia|]. cbn [option_map fst walk_loop].
+    rewrite (wb_val _ _ _ H _ _ _ E), (wb_next _ _ _ H _ _ _ E).
+    rewrite IHk by lia. simpl.
+    rewrite <- app_assoc. simpl.
+    assert (skipn i cvs = (c, v) :: skipn (S i) cvs) as ->; [|reflexivity].
+    clear - E. revert i E. induction cvs; intros [|i] E; simpl in *; try discriminate.
+    + now inversion E.
+    + now apply IHcvs.
+Qed.
+
+Theorem walk_fwd f u cvs cut : wb f u cvs -> (length cvs < cut)%nat ->
+  walk R f Fwd cut u = (map snd cvs, WDone).
+Proof.
+  intros H Hc. unfold walk. rewrite (wb_init _ _ _ H).
+  now rewrite (walk_loop_fwd _ _ _ H (length cvs) 0%nat [] cut) by lia.
+Qed.
+
+Lemma walk_loop_bwd f u cvs (H : wb f u cvs) :
+  forall i acc cut, (i <= length cvs)%nat -> (i < cut)%nat ->
+    walk_loop R f Bwd u cut (cur_before cvs i) acc = (rev acc ++ rev (map snd (firstn i cvs)), WDone).
+Proof.
+  induction i; intros acc cut Hi Hc.
+  - simpl. destruct cut; now rewrite app_nil_r.
+  - destruct (nth_error cvs i) as [[c v]|] eqn:E.
+    2:{ apply nth_error_None in E. lia. }
+    cbn [cur_before]. unfold cur_at. rewrite E. destruct cut as [|cut]; [lia|]. cbn [option_map fst walk_loop].
+    rewrite (wb_val _ _ _ H _ _ _ E), (wb_prev _ _ _ H _ _ _ E).
+    rewrite IHi by lia.
+    assert (firstn (S i) cvs = firstn i cvs ++ [(c, v)]) as ->.
+    { clear - E. revert i E. induction cvs; intros [|i] E; simpl in *; try discriminate.
+      - now inversion E.
+      - f_equal. now apply IHcvs. }
+    rewrite map_app, rev_app_distr. cbn [rev map snd app]. now rewrite <- app_assoc.
+Qed.
+
+Theorem walk_bwd f u cvs cut : wb f u cvs -> (length cvs < cut)%nat ->
+  walk R f Bwd cut u = (rev (map snd cvs), WDone).
+Proof.
+  intros H Hc. unfold walk. rewrite (wb_last _ _ _ H).
+  rewrite (walk_loop_bwd _ _ _ H (length cvs) [] cut) by lia.
+  now rewrite firstn_all.
+Qed.
+
+(* ------------------------------------------------------------------ index-cursor containers *)
+Fixpoint chain_from (k : nat) (xs : list val) : list (cur * val) :=
+  match xs with [] => [] | v :: r => (CPos (Z.of_nat k), v) :: chain_from (S k) r end.
+
+Lemma chain_from_nth xs : forall k i,
+  nth_error (chain_from k xs) i = option_map (fun v => (CPos (Z.of_nat (k + i)), v)) (nth_error xs i).
+Proof.
+  induction xs; intros k [|i]; simpl; auto.
+  - now rewrite Nat.add_0_r.
+  - rewrite IHxs. now replace (S k + i)%nat with (k + S i)%nat by lia.
+Qed.
+
+Lemma chain_from_length xs : forall k, length (chain_from k xs) = length xs.
+Proof. induction xs; simpl; auto. Qed.
+
+Lemma chain_from_snd xs : forall k, map snd (chain_from k xs) = xs.
+Proof. induction xs; simpl; intros; f_equal; auto. Qed.
+
+Lemma cur_at_chain xs i :
+  cur_at (chain_from 0 xs) i = if (i <? length xs)%nat then Some (CPos (Z.of_nat i)) else None.
+Proof.
+  unfold cur_at. rewrite chain_from_nth. simpl.
+  destruct (Nat.ltb_spec i (length xs)) as [H|H].
+  - destruct (nth_error xs i) eqn:E; simpl; auto. apply nth_error_None in E. lia.
+  - apply nth_error_None in H. now rewrite H.
+Qed.
+
+Lemma znth_nat {A} (l : list A) (i : nat) : znth l (Z.of_nat i) = nth_error l i.
+Proof.
+  unfold znth, zlen. destruct (nth_error l i) eqn:E.
+  - assert (i < length l)%nat by (apply nth_error_Some; congruence).
+    replace (0 <=? Z.of_nat i) with true by (symmetry; apply Z.leb_le; lia).
+    replace (Z.of_nat i <? Z.of_nat (length l)) with true by (symmetry; apply Z.ltb_lt; lia).
+    simpl. now rewrite Nat2Z.id.
+  - apply nth_error_None in E.
+    replace (Z.of_nat i <? Z.of_nat (length l)) with false by (symmetry; apply Z.ltb_ge; lia).
+    now rewrite andb_false_r.
+Qed.
+
+Ltac zb := repeat match goal with
+  | |- context [?a =? ?b] => destruct (Z.eqb_spec a b)
+  | |- context [?a <=? ?b] => destruct (Z.leb_spec a b)
+  | |- context [?a <? ?b] => destruct (Z.ltb_spec a b)
+  | |- context [(?a <? ?b)%nat] => destruct (Nat.ltb_spec a b)
+  end.
+
+(* Array (with the repaired Array_Iter_Prev), List and Tree (in-order positions) *)
+Lemma wb_index_gen f u xs
+  (Hstart : forall d, it_start R f d u = OVal (arr_start d (zlen xs)))
+  (Hval : forall i, cur_val u (CPos i) = oget (znth xs i))
+  (Hfwd : forall i : nat, (i < length xs)%nat -> it_step R f Fwd u (CPos (Z.of_nat i)) =
+            OVal (if (S i <? length xs)%nat then Some (CPos (Z.of_nat (S i))) else None))
+  (Hbwd : forall i : nat, (i < length xs)%nat -> it_step R f Bwd u (CPos (Z.of_nat i)) =
+            OVal (match i with O => None | S j => Some (CPos (Z.of_nat j)) end)) :
+  wb f u (chain_from 0 xs).
+Proof.
+  constructor.
+  - rewrite Hstart, cur_at_chain. unfold arr_start, zlen. destruct xs; simpl; auto.
+  - rewrite Hstart, chain_from_length. unfold arr_start, zlen. destruct xs as [|x xs]; [reflexivity|].
+    cbn [cur_before length]. rewrite cur_at_chain. cbn [length].
+    replace (length xs <? S (length xs))%nat with true by (symmetry; apply Nat.ltb_lt; lia).
+    replace (Z.of_nat (S (length xs)) =? 0) with false by (symmetry; apply Z.eqb_neq; lia).
+    do 3 f_equal. lia.
+  - intros i c v E. rewrite chain_from_nth in E. simpl in E.
+    destruct (nth_error xs i) eqn:E2; inversion E; subst. now rewrite Hval, znth_nat, E2.
+  - intros i c v E. rewrite chain_from_nth in E. simpl in E.
+    destruct (nth_error xs i) eqn:E2; inversion E; subst.
+    assert (i < length xs)%nat by (apply nth_error_Some; congruence).
+    now rewrite Hfwd, cur_at_chain.
+  - intros i c v E. rewrite chain_from_nth in E. simpl in E.
+    destruct (nth_error xs i) eqn:E2; inversion E; subst.
+    assert (i < length xs)%nat by (apply nth_error_Some; congruence).
+    rewrite Hbwd by auto. destruct i; [reflexivity|].
+    cbn [cur_before]. rewrite cur_at_chain.
+    now replace (i <? length xs)%nat with true by (symmetry; apply Nat.ltb_lt; lia).
+Qed.
+
+Lemma wb_array f xs : wb f (IArray xs) (chain_from 0 xs).
+Proof.
+  apply wb_index_gen; try reflexivity; intros i Hi; cbn [it_step]; unfold arr_step, zlen; cbn [array_prev_incl repaired].
+  - f_equal. zb; try lia; try reflexivity; do 2 f_equal; lia.
+  - f_equal. destruct i; zb; try lia; try reflexivity; do 2 f_equal; lia.
+Qed.
+
+Lemma wb_list f xs : wb f (IList xs) (chain_from 0 xs).
+Proof.
+  apply wb_index_gen; try reflexivity; intros i Hi; cbn [it_step]; unfold list_step, zlen.
+  - f_equal. zb; try lia; try reflexivity; do 2 f_equal; lia.
+  - f_equal. destruct i; zb; try lia; try reflexivity; do 2 f_equal; lia.
+Qed.
+
+Lemma wb_tree f xs : wb f (ITree xs) (chain_from 0 xs).
+Proof.
+  apply wb_index_gen; try reflexivity; intros i Hi; cbn [it_step]; unfold list_step, zlen.
+  - f_equal. zb; try lia; try reflexivity; do 2 f_equal; lia.
+  - f_equal. destruct i; zb; try lia; try reflexivity; do 2 f_equal; lia.
+Qed.
+
+(* pre-repair Array_Iter_Prev (curr < Array_Item(a,0)): the backward walk reads before the array *)
+Definition pre_D9 : rules := mkRules false true true true true true true true true.
+Lemma array_prev_refuted :
+  exists xs, snd (walk pre_D9 10 Bwd 10 (IArray xs)) = WCrash.
+Proof. exists [VInt 1]. vm_compute. reflexivity. Qed.
+
+(* ------------------------------------------------------------------ Map over a well-behaved iterable *)
+Definition map_chain (g : val -> val) (cvs : list (cur * val)) : list (cur * val) :=
+  map (fun cv => (CMap (fst cv) (g (snd cv)), g (snd cv))) cvs.
+
+Lemma map_chain_snd g cvs : map snd (map_chain g cvs) = map g (map snd cvs).
+Proof. unfold map_chain. rewrite !map_map. reflexivity. Qed.
+
+Lemma map_chain_nth g cvs i :
+  nth_error (map_chain g cvs) i =
+  option_map (fun cv => (CMap (fst cv) (g (snd cv)), g (snd cv))) (nth_error cvs i).
+Proof. unfold map_chain. apply nth_error_map. Qed.
+
+Lemma map_wrap_at f u cvs g i : wb f u cvs ->
+  map_wrap g (cur_val u) (cur_at cvs i) = OVal (cur_at (map_chain g cvs) i).
+Proof.
+  intros H. unfold cur_at. rewrite map_chain_nth.
+  destruct (nth_error cvs i) as [[c v]|] eqn:E; simpl; auto.
+  now rewrite (wb_val _ _ _ H _ _ _ E).
+Qed.
+
+Lemma map_wrap_before f u cvs g i : wb f u cvs ->
+  map_wrap g (cur_val u) (cur_before cvs i) = OVal (cur_before (map_chain g cvs) i).
+Proof. intros H. destruct i; simpl; auto. now apply (map_wrap_at f). Qed.
+
+Theorem wb_map f u cvs g : wb f u cvs -> wb f (IMap g u) (map_chain g cvs).
+Proof.
+  intros H. constructor.
+  - cbn [it_start]. rewrite (wb_init _ _ _ H). cbn [bind]. now apply (map_wrap_at f).
+  - cbn [it_start]. rewrite (wb_last _ _ _ H). cbn [bind].
+    unfold map_chain at 2. rewrite map_length. now apply (map_wrap_before f).
+  - intros i c v E. rewrite map_chain_nth in E.
+    destruct (nth_error cvs i) as [[c0 v0]|]; inversion E; subst. reflexivity.
+  - intros i c v E. rewrite map_chain_nth in E.
+    destruct (nth_error cvs i) as [[c0 v0]|] eqn:E0; inversion E; subst.
+    cbn [it_step fst snd]. rewrite (wb_next _ _ _ H _ _ _ E0). cbn [bind]. now apply (map_wrap_at f).
+  - intros i c v E. rewrite map_chain_nth in E.
+    destruct (nth_error cvs i) as [[c0 v0]|] eqn:E0; inversion E; subst.
+    cbn [it_step fst snd]. rewrite (wb_prev _ _ _ H _ _ _ E0). cbn [bind]. now apply (map_wrap_before f).
+Qed.
